@@ -316,6 +316,36 @@ func ckksE2SLeaf(c *engine.Chooser, name string, k cfg) {
 	if !ok {
 		return
 	}
+	// A party without key share (secretShare = nil) obtains x - sum M_i from the aggregate. Its result must be its own:
+	// no memory shared with the protocol object, and unchanged by a second GetShare on the same object for another
+	// ciphertext (the first result is judged after the second call ran).
+	{
+		first := mpckks.NewAdditiveShare(w.params, k.logSlots)
+		e2s[0].GetShare(nil, aggPub, w.ct, &first)
+		if inst == 0 && hist == 0 {
+			if ov := mp.Overlap([]interface{}{"share returned by GetShare(nil, ...)", &first}, []interface{}{"protocol object", &e2s[0], "aggregate", &aggPub}); ov != "" {
+				c.Fail("C16/ckks-e2s/GetShare/output-aliases-callee-or-input", "%s", ov)
+				return
+			}
+		}
+		ct2 := w.ct.CopyNew()
+		rp.RingQ().AtLevel(ct2.Level()).Add(ct2.Value[0], ct2.Value[1], ct2.Value[0]) // some other ciphertext
+		second := mpckks.NewAdditiveShare(w.params, k.logSlots)
+		e2s[0].GetShare(nil, aggPub, ct2, &second)
+		tot := make([]*big.Int, w.dslots)
+		for j := range tot {
+			tot[j] = new(big.Int).Set(first.Value[j])
+			for i := range sec {
+				tot[j].Add(tot[j], sec[i].Value[j])
+			}
+		}
+		lim := new(big.Int).Add(mp.XeSup(rp.Xe()), new(big.Int).Mul(big.NewInt(int64(n)), w.sup))
+		if d := maxDiff(tot, w.sparse(w.ptCoeffs)); lsh >= w.minLevel && d.Cmp(lim) > 0 {
+			c.Fail("C16/ckks-e2s/GetShare/result-changed-by-a-later-call", "share obtained with secretShare=nil, read after a second GetShare on the same object: |share + sum of masks - plaintext| = %v > %v", d, lim)
+			return
+		}
+		c.Cover("consecutive-calls", "ckks-getshare")
+	}
 	e2s[0].GetShare(&sec[0], aggPub, w.ct, &sec[0])
 	sum := make([]*big.Int, w.dslots)
 	for j := range sum {
@@ -367,6 +397,11 @@ func ckksE2SLeaf(c *engine.Chooser, name string, k cfg) {
 	}
 	if rec.Level() != lout {
 		c.Fail("C16/ckks-s2e/GetEncryption/wrong-level", "level %d, want %d", rec.Level(), lout)
+		return
+	}
+	if !receiverAxis(c, finalCall{sig: "C16/ckks-s2e/GetEncryption", rp: rp, want: rec, preMeta: true,
+		alloc: func(d, l int) *rlwe.Ciphertext { return ckks.NewCiphertext(w.params, d, l) },
+		run:   func(o *rlwe.Ciphertext) error { return s2e[0].GetEncryption(aggC0, crp, o) }}, name) {
 		return
 	}
 	// phase = lift(sum of shares) + sum_i e'_i: within eIn + N*sup of the plaintext at the sparse positions,
@@ -560,6 +595,14 @@ func ckksTransformLeaf(c *engine.Chooser, name string, k cfg) {
 		return
 	}
 	c.Outcome(name, ops.Flat(agg).Hash())
+	if inst == 0 && hist == 0 {
+		// a party's refresh share is its own: no memory shared with its protocol object, the ciphertext or the crp
+		if ov := mp.Overlap([]interface{}{"e2s half", &shares[0].EncToShareShare, "s2e half", &shares[0].ShareToEncShare}, []interface{}{"protocol object", &mtp[0], "ciphertext", &w.ct.Value, "crp", &crp}); ov != "" && n > 1 {
+			c.Fail(sig+"/GenShare/output-aliases-input-or-callee", "%s", ov)
+			return
+		}
+		c.Cover("alias", "outputs-vs-inputs-and-callee")
+	}
 
 	// expected output polynomial at the sparse positions, as exact rationals scaled to the output scale D:
 	// x = what the function sees (in units of the input scale S), y = f(x), out = y * D/S (re-encoded if asked)
@@ -689,6 +732,11 @@ func ckksTransformLeaf(c *engine.Chooser, name string, k cfg) {
 			return
 		}
 		c.Note("%s: |phase - expected| = %v <= %v", mode, maxDiff(ph, want), bound)
+	}
+	if !receiverAxis(c, finalCall{sig: sig + "/finalize", rp: rpo, want: inpl, checkMeta: true,
+		alloc: func(d, l int) *rlwe.Ciphertext { return ckks.NewCiphertext(w.pout, d, l) },
+		run:   func(o *rlwe.Ciphertext) error { return run(w.ct, o) }}, name) {
+		return
 	}
 	c.Cover("functional", k.proto)
 }
